@@ -77,6 +77,7 @@ def _check_one(case: dict):
     import matplotlib.pyplot as plt
     from maze_dataset.plotting import MazePlot
 
+    M.sync_palette()
     g, sol, kind, ul = case["g"], case["sol"], case["kind"], case["ul"]
     values = case.get("values")
     pdt = L.provenance(case, g)
